@@ -111,7 +111,9 @@ def run(prog: Program, rep, thorough: bool) -> None:
         elif read and rep.extra.get('witness_search', {}).get('unreadable') is None:
             # another shape of the scans: nothing is claimed for all inputs, but the finite family (R4) was read in
             # full without a counterexample, so this is not an alarm either
-            for r_ in ('C16.R1', 'C16.R2'):
+            for r_ in ('C16.R1', 'C16.R2', 'C16.R3'):
+                if r_ == 'C16.R3' and (rep.rules[r_].instances or not rep.extra['witness_search'].get('sentinel_inputs_read')):
+                    continue
                 rep.rules[r_].min_instances = 0
                 rep.undecided(r_, ds.where, 'scan shape', f'not readable ({exc}); the finite family of R4 holds')
         else:
@@ -398,10 +400,11 @@ def witness_search(prog: Program, rep, rule: str) -> Optional[str]:
                                 'call:HitResult.__check_extra__': lambda *a: NONE})
     ev.unroll = True
     tried = 0
+    sentinel_read = 0
     unreadable = None
     for n in (1, 2, 3, 4):
         for drops in itertools.product((0, 1, 3), repeat=n):
-            for k in range(n):
+            for k in [-1] + list(range(n)):
                 idx_box['k'] = k
                 st = State()
                 rows = [C.mk_row(ev, st, prog, f'r{i}_', {'target_drop': C.mk_quantity(ev, st, prog, 'Distance', Scalar(Fraction(d)), 'Foot'),
@@ -417,6 +420,16 @@ def witness_search(prog: Program, rep, rule: str) -> Optional[str]:
                     unreadable = str(exc)
                     continue
                 outs = [x for _p, x in cond_leaves(r)]
+                if k == -1:
+                    # the look-up found no row: the call must raise, whatever the rows are
+                    if len(outs) == 1 and isinstance(outs[0], Raised):
+                        sentinel_read += 1
+                    elif len(outs) == 1 and isinstance(outs[0], Inst):
+                        return (f'drops {list(drops)} (feet), a target beyond the last row (look-up result -1): a danger space is '
+                                f'returned instead of an error (Python takes row -1, the last row)')
+                    else:
+                        unreadable = f'result {outs!r} for the -1 look-up'
+                    continue
                 if len(outs) != 1 or not isinstance(outs[0], Inst):
                     unreadable = f'result {outs!r}'
                     continue
@@ -443,7 +456,7 @@ def witness_search(prog: Program, rep, rule: str) -> Optional[str]:
                     return f'{where}: the begin bound is row {b}, neither the first row nor a row half the height away'
                 if e != n - 1 and e != k and not far(e) or (e == k and k != n - 1):
                     return f'{where}: the end bound is row {e}, neither the last row nor a row half the height away'
-    rep.extra['witness_search'] = {'inputs_read': tried, 'unreadable': unreadable}
+    rep.extra['witness_search'] = {'inputs_read': tried, 'sentinel_inputs_read': sentinel_read, 'unreadable': unreadable}
     return None
 
 
